@@ -7,6 +7,7 @@ import (
 
 	"github.com/xuperchain/xupercore/bcs/ledger/xledger/state/xmodel"
 	pb "github.com/xuperchain/xupercore/bcs/ledger/xledger/xldgpb"
+	"github.com/xuperchain/xupercore/lib/verifhook"
 )
 
 const (
@@ -112,8 +113,10 @@ func (sp *SpinLock) IsLocked(key string) bool {
 func (sp *SpinLock) TryLock(lockKeys []*LockKey) ([]*LockKey, bool) {
 	succLocked := []*LockKey{}
 	for _, k := range lockKeys {
+		verifhook.Yield("trylock.key")
 		if lkType, occupiedByOthers := sp.m.LoadOrStore(k.key, k.lockType); occupiedByOthers {
 			if lkType == sharedLock && k.lockType == sharedLock { //读读共享
+				verifhook.Yield("trylock.shared.beforeAdd")
 				sp.refCounter.Add(k.key)
 				succLocked = append(succLocked, k)
 				continue
@@ -122,6 +125,7 @@ func (sp *SpinLock) TryLock(lockKeys []*LockKey) ([]*LockKey, bool) {
 			}
 		}
 		if k.lockType == sharedLock {
+			verifhook.Yield("trylock.first.beforeAdd")
 			sp.refCounter.Add(k.key)
 		}
 		succLocked = append(succLocked, k) //第一个抢到
@@ -135,10 +139,12 @@ func (sp *SpinLock) Unlock(lockKeys []*LockKey) {
 	for i := N - 1; i >= 0; i-- {
 		lkType := lockKeys[i].lockType
 		k := lockKeys[i].key
+		verifhook.Yield("unlock.key")
 		if lkType == exclusiveLock {
 			sp.m.Delete(k)
 		} else if lkType == sharedLock { //共享锁要考虑引用计数
 			if sp.refCounter.Release(k) == 0 {
+				verifhook.Yield("unlock.shared.beforeDelete")
 				sp.m.Delete(lockKeys[i].key)
 			}
 		}
